@@ -1,6 +1,6 @@
 (* Runner.v — top of the executable model: dispatches one request line. *)
 From Coq Require Import String.
-From GS Require Import GoSem Text Dispatch DispatchHuman DispatchParsers.
+From GS Require Import GoSem Text Dispatch DispatchHuman DispatchParsers DispatchScan.
 Open Scope N_scope.
 
 Definition first_some (l : list (option bytes)) : bytes :=
@@ -13,6 +13,7 @@ Definition dispatch (line : bytes) : bytes :=
   match split_on SP line with
   | cmd :: args =>
       first_some [ dispatch_counts cmd args; dispatch_human cmd args;
-                   dispatch_parsers cmd args ]
+                   dispatch_parsers cmd args;
+                   dispatch_scan cmd args ]
   | [] => err "empty"
   end.
